@@ -46,7 +46,7 @@ def make(rng, path, with_m=True, m_last=False):
     raise core.MachineryError('could not build a tie-free ruleset')
 
 
-def expected(path, flags=None):
+def expected(path, flags=None, with_pts=False):
     """uninterrupted stream of the real code (in-process, fake keyboard thread that never quits):
     list of (pt_no, is_markov, guess, pt_prob)"""
     flags = flags or {}
@@ -61,11 +61,16 @@ def expected(path, flags=None):
     pc2 = ptq.load_pcfg(path, **flags)
     evs = ptq.run_history(pc2, [], with_queue=False)['sessions'][0]['ev']
     k = 0
+    pts = []
     for ev in r['events']:
         if ev[0] == 'pt':
             ptno += 1
             cur_m = ev[1][0][0] == 'M'
             prob_of[ptno] = evs[ptno - 1][0]['prob']
+            pts.append({'kind': 'omen' if cur_m else 'plain', 'size': 0, 'prob': prob_of[ptno]})
         else:
             out.append((ptno, cur_m, ev[1], prob_of[ptno]))
+            pts[-1]['size'] += 1
+    if with_pts:
+        return out, pts
     return out
